@@ -1864,7 +1864,7 @@ func cacheProperties() []*propertySpec {
 			Explanation: "Static analysis of the run loop (same event model as C01): CP2 computes, per decision of one iteration (run, skip, record, persist), the transitive control dependence on the intra-iteration CFG and the backward data slice of every influencing condition and proves that no loop-carried phi or outer cell written in the loop is read (non-interference between tasks); CP3L proves by path search that every successful X is followed on all paths by recording an H-derived digest and persisting it; CP5 proves that a task with an empty input list can never be reported skipped.",
 			NotCovered:  []string{"that equal inputs produce equal digests across runs (C04 determinism)", "that the skip branch is actually taken when digests are equal (value-level)"},
 			Assumptions: trusted,
-			Rules:       []func(*Ctx) *rule{ruleCP2, ruleCP3("CP3L"), ruleCP5, ruleCP11, ruleAB1}},
+			Rules:       []func(*Ctx) *rule{ruleCP2, ruleCP3("CP3L"), ruleCP5, ruleCP11, ruleAB1, ruleAB2}},
 		{ID: "C10", Title: "Killing spok at any point never leads to a wrongly skipped task later",
 			Explanation: "Crash points are quantified over by ordering constraints on every CFG path: CP4 proves that on every intra-iteration path to X the recorded digest is replaced by a constant and persisted first (so a kill at any later instant finds an invalidated entry); CP8 proves that an H-derived digest is only recorded under Ok() of X's own result, after X; CP7 proves that a failed read/decode of the cache file ends in a non-nil error in the loader and in the run loop (torn writes are decode errors by the json contract).",
 			NotCovered:  []string{"atomicity of os.WriteFile beyond 'a torn file does not decode'", "kill during cache.Init of a fresh project (file then holds only empty digests or is torn)"},
@@ -2188,6 +2188,65 @@ func ruleCP12(c *Ctx) *rule {
 }
 
 // ---- AB1 (the project root is absolute) ---------------------------------------------------------------------------------------
+
+// ---- AB2: where the spokfile path comes from -------------------------------------------------------------------------------------------
+
+func ruleAB2(c *Ctx) *rule {
+	r := &rule{ID: "AB2", Engine: "E3", Floor: 1,
+		Statement: "every store into Options.Spokfile made by the module stores either the result of file.Find or filepath.Abs of the previous Options.Spokfile (the --spokfile flag); nothing else decides which file is the spokfile",
+		Necessity: "a path found by another test (a bare existence check accepts a directory called spokfile), or rewritten afterwards (symlink resolution moves the project root to the link's target), makes spok load, format, cache next to and expand globs under a different file or directory than the nearest enclosing spokfile"}
+	findF := c.fn("file", "Find")
+	n := 0
+	for _, st := range c.fieldStores()["cli/app.Options.Spokfile"] {
+		if !inModule(st.Parent()) || strings.HasSuffix(fnPkgPath(st.Parent()), "cli/cmd") {
+			continue // the flag binding itself
+		}
+		n++
+		key := fmt.Sprintf("%s Options.Spokfile store#%d", fname(st.Parent()), n)
+		bad := ""
+		for _, o := range origins(st.Val) {
+			ex, ok := o.(*ssa.Extract)
+			if !ok {
+				if u, isLoad := o.(*ssa.UnOp); isLoad && u.Op == token.MUL && fieldKey(u.X) == "cli/app.Options.Spokfile" {
+					continue // unchanged
+				}
+				bad = "a value that is neither the result of file.Find nor filepath.Abs of the flag (" + condText(o) + ")"
+				continue
+			}
+			call, ok := ex.Tuple.(*ssa.Call)
+			if !ok || ex.Index != 0 {
+				bad = "a value that is neither the result of file.Find nor filepath.Abs of the flag"
+				continue
+			}
+			switch {
+			case call.Common().StaticCallee() == findF:
+			case calleeName(call.Common()) == "path/filepath.Abs":
+				as := c.newSlicer()
+				as.depth = 0
+				ares := as.run(call.Common().Args[0])
+				if !ares.hasField("cli/app.Options.Spokfile") {
+					bad = "filepath.Abs of something other than Options.Spokfile"
+				}
+				for _, nme := range ares.callNames() {
+					if nme != "(*github.com/FollowTheProcess/spok/file.Find" && !strings.HasSuffix(nme, "file.Find") && nme != "path/filepath.Abs" {
+						bad = "the path is rewritten by " + nme + " before it is made absolute"
+					}
+				}
+			default:
+				bad = "the result of " + calleeName(call.Common())
+			}
+		}
+		if bad == "" {
+			r.ok(key, c.ipos(st), "file.Find's result, or filepath.Abs of the flag")
+		} else {
+			r.bad(key, c.ipos(st), "Options.Spokfile is set to "+bad)
+		}
+	}
+	if n == 0 {
+		r.undecided("module Options.Spokfile stores", "-", "the module never stores into Options.Spokfile")
+	}
+	return r
+}
 
 func ruleAB1(c *Ctx) *rule {
 	r := &rule{ID: "AB1", Engine: "E2+E3", Floor: 1,
